@@ -805,19 +805,30 @@ func (r *runner) root(n *node) (curTag string, rootLeft bool) {
 	return
 }
 
-func waitLive(base int) int {
+// leaksSeen: once a leak has been confirmed a few times in this process there is no point in waiting long again
+var leaksSeen int32
+
+func waitLive(base int, budget time.Duration) int {
 	// the deferred Cleanup of a forked goroutine runs after its doer returned: give it a moment
-	for i := 0; i < 4000; i++ {
-		if d := threadlocal.VerifLiveTables() - base; d <= 0 {
+	if atomic.LoadInt32(&leaksSeen) >= 3 {
+		budget = 2 * time.Millisecond
+	}
+	deadline := time.Now().Add(budget)
+	for i := 0; ; i++ {
+		d := threadlocal.VerifLiveTables() - base
+		if d <= 0 {
 			return d
 		}
-		if i < 50 {
+		if time.Now().After(deadline) {
+			atomic.AddInt32(&leaksSeen, 1)
+			return d
+		}
+		if i < 100 {
 			runtime.Gosched()
 		} else {
-			time.Sleep(250 * time.Microsecond)
+			time.Sleep(100 * time.Microsecond)
 		}
 	}
-	return threadlocal.VerifLiveTables() - base
 }
 
 func (r *runner) render(curTag string, live int) string {
@@ -890,7 +901,7 @@ func exec(c px.Context, op string, args []sx.Sexp) core.Result {
 		base := threadlocal.VerifLiveTables()
 		r := newRunner(true, sched, n)
 		curTag, _ := r.root(n)
-		live := waitLive(base)
+		live := waitLive(base, 100*time.Millisecond)
 		if live != 0 {
 			r.fail("tls-leak", "%d goroutine-local table(s) still allocated after Do returned on a fresh goroutine and every forked goroutine ended", live)
 		}
@@ -928,7 +939,7 @@ func exec(c px.Context, op string, args []sx.Sexp) core.Result {
 			}(rs[i])
 		}
 		wg.Wait()
-		live := waitLive(base)
+		live := waitLive(base, time.Second)
 		all := &runner{}
 		for _, r := range rs {
 			all.fails = append(all.fails, r.fails...)
